@@ -156,6 +156,36 @@ func (c *Ctx) own(which map[string]bool) {
 				}
 			}
 		})
+		// a packet that arrives as net.Buffers leaves as a whole, under one holding
+		// of the write token: no buffer of it is handed to a writer on its own
+		parts := 0
+		c.eachInstr(func(fn *ssa.Function, ins ssa.Instruction) {
+			call, ok := ins.(ssa.CallInstruction)
+			if !ok {
+				return
+			}
+			sc := call.Common().StaticCallee()
+			if sc == nil || !(ww[sc] || c.wireCapable()[sc]) {
+				return
+			}
+			for _, a := range call.Common().Args {
+				u, ok := a.(*ssa.UnOp)
+				if !ok || u.Op != token.MUL {
+					continue
+				}
+				ia, ok := u.X.(*ssa.IndexAddr)
+				if !ok {
+					continue
+				}
+				if strings.HasSuffix(ia.X.Type().String(), "net.Buffers") {
+					parts++
+					c.S.Bad("OWN-2", "OWN-2|packet-written-as-a-whole|in("+load.FuncName(load.TopLevel(fn))+")", c.P.Pos(ins.Pos()), load.FuncName(fn), "one buffer of a multi-buffer packet is passed to "+sc.Name()+" on its own: the write token is released between the parts, and another goroutine's packet can land inside this one", nil)
+				}
+			}
+		})
+		if parts == 0 {
+			c.S.OK("OWN-2", "OWN-2|packet-written-as-a-whole", "", "", "no element of a net.Buffers value is passed to a wire writer", true)
+		}
 		c.checkSites("OWN-2", "wire-writer-callers", sites,
 			set("(*Client).write", "(*Client).writeNoWait", "(*Client).writeBuffers", "(*Client).writeBuffersNoWait", "(*Client).resend", "(*Client).handshake", "(*Client).Disconnect"),
 			"each listed caller is verified by the TOK rules to hold the write token or to own a connection not yet published", 6)
